@@ -440,14 +440,17 @@ class C05(Check):
             "import adapter\n"
             "from edgegraph.structure import Vertex\n"
             "r = adapter.Real()\n"
-            "n = int(sys.stdin.buffer.readline())\n"
+            "n, mode = sys.stdin.buffer.readline().split()\n"
+            "n = int(n)\n"
             "V, L, W = pickle.loads(sys.stdin.buffer.read(n))\n"
             "for v in V: r.reg_v(v)\n"
             "for l in L: r.reg_l(l)\n"
             "for w in W: r.reg_w(w)\n"
             "Vertex.NEIGHBOR_CACHING = True\n"
             "qs = [q for q in sys.stdin.buffer.read().decode().split('\\n') if q]\n"
-            "for q in qs: print(r.step(q)); print(r.step(q))\n"
+            "# mode b'qfirst': the loaded graph is queried first; b'mutfirst': it is MUTATED before its first query\n"
+            "if mode == b'qfirst':\n"
+            "    for q in qs: print(r.step(q)); print(r.step(q))\n"
             "# mutate the loaded graph here, then every answer must still equal a recomputation\n"
             "muts = ['edge D V0 V%%d' %% (len(V) - 1), 'setv2 L0 V0', 'unlink V0 V%%d destroy' %% (len(V) - 1), 'edge U V0 V0']\n"
             "for m in muts:\n"
@@ -459,7 +462,8 @@ class C05(Check):
             "        Vertex.NEIGHBOR_CACHING = True\n"
             "        if a != b: print('STALE after %%s: %%s answered %%s, recomputed %%s' %% (m, q, a, b))\n"
         ) % (os.environ.get("EG_REPO", "/repo"), HERE)
-        inp = str(len(data)).encode() + b"\n" + data + "\n".join(qs).encode()
+        mutfirst = getattr(self, "fresh_runs", 0) % 2 == 1
+        inp = str(len(data)).encode() + (b" mutfirst" if mutfirst else b" qfirst") + b"\n" + data + "\n".join(qs).encode()
         pr = subprocess.run([sys.executable, "-c", code], input=inp, stdout=subprocess.PIPE,
                             stderr=subprocess.PIPE, check=False)
         got = pr.stdout.decode().split("\n")
@@ -467,7 +471,9 @@ class C05(Check):
         stale = [g for g in got if g.startswith("STALE")]
         if stale:
             return Violation("oracle", "in a fresh interpreter (caching on) after un-pickling: " + stale[0], lines + ["fresh"])
-        for i, q in enumerate(qs):
+        if pr.returncode != 0:
+            return Violation("oracle", "the fresh interpreter failed on the un-pickled graph: " + pr.stderr.decode()[-300:], lines + ["fresh"])
+        for i, q in enumerate([] if mutfirst else qs):
             for rep in (0, 1):
                 g = got[2 * i + rep] if 2 * i + rep < len(got) else "<no answer: %s>" % pr.stderr.decode()[-300:]
                 if g != exp[i] and not (g.startswith("err ") and exp[i].startswith("err ")):
